@@ -144,6 +144,9 @@ def check(F, R):
     err_kind(F, R)
     s_any(F, R)
     s_prim(F, R)
+    s_arity(F, R)
+    import c16
+    c16.s_order(F, R)
     import c06
     n = c06.d_scope_use(F, R, rule="D-SCOPE-USE")
     R.ob("D-SCOPE-USE", "functions", n >= 4, "", "expected at least 4 type-checking functions that open one frame per iteration, found %d" % n)
@@ -381,3 +384,79 @@ def s_prim(F, R):
     for v in sorted(set(dead)):
         kinds = static.get(v)
         R.ob("S-PRIM", v, not kinds, F.loc(ap), "PreExp::%s can never be evaluated to a primitive (as_primitive is an unconditional WrongArgument error) but its static kind is %s: the checker accepts it wherever that kind is accepted" % (v, kinds))
+
+
+def s_arity(F, R, side="both"):
+    """S-ARITY: destructuring `(a, b, ..) in S`.  The run-time binder apply_tuple and the static guard of
+    IterableSet::variable_types are evaluated from their HIR on every (number of names, number of components) pair up to
+    5 x 5, with and without `_` placeholders: the binder binds the i-th name to the i-th component and fails exactly when
+    there are more names than components; the static guard rejects exactly those cases (for element kinds whose arity is
+    known: edges, tuples), so that what the checker accepts the binder can bind."""
+    from interp import Interp, Var as V, Rope as Rp, ListV as LV, Leaf as Lf, is_unknown
+    I = Interp(F, max_depth=120)
+    SP = lambda s: V("utils::Spanned", fields={"value": Rp([s]), "span": Lf("span")})
+    ap = "parser::recursive_set_resolver::apply_tuple"
+    bound = []
+    I.models["parser::model_transformer::transformer_context::TransformerContext::update_variable"] = lambda I_, a: (bound.append(((a[1].fields["value"].text() if isinstance(a[1], V) else str(a[1])), a[2])), V("std::result::Result::Ok", [()]))[1]
+    if side in ("both", "runtime"):
+        f = F.fn(ap)
+        if R.ob("S-ARITY", "anchor:apply_tuple", f is not None, "packages/rooc/src/parser/recursive_set_resolver.rs", "apply_tuple found"):
+            R.fn(ap)
+            bad = None
+            for n in range(0, 6):
+                for m in range(0, 6):
+                    for names in (["v%d" % i for i in range(n)], ["_" if i % 2 else "v%d" % i for i in range(n)], ["_"] * n):
+                        del bound[:]
+                        vals = [Lf("c%d" % i) for i in range(m)]
+                        r = I.call_fn(ap, [V("CTX"), LV([SP(x) for x in names]), LV(list(vals))])
+                        if is_unknown(r):
+                            bad = "not evaluable for %d names / %d components: %r" % (n, m, r)
+                            break
+                        ok_ = isinstance(r, V) and r.path.endswith("Result::Ok")
+                        if n > m and ok_:
+                            bad = "%d names %s over %d components is accepted (bound %s): the surplus names keep whatever they held before" % (n, names, m, [b[0] for b in bound])
+                        elif n <= m and not ok_:
+                            bad = "%d names over %d components is refused: %r" % (n, m, r)
+                        elif n <= m and [(a, b.name) for a, b in bound] != [(nm, "c%d" % i) for i, nm in enumerate(names)]:
+                            bad = "names %s over %d components are bound as %s" % (names, m, [(a, b.name) for a, b in bound])
+                        if bad:
+                            break
+                    if bad:
+                        break
+                if bad:
+                    break
+            R.ob("S-ARITY", "apply_tuple", bad is None, F.loc(f), bad or "binds positionally and fails exactly when there are more names than components (6 x 6 x 3 cases)")
+    if side in ("both", "static"):
+        vt = "parser::il::iterable_set::IterableSet::variable_types"
+        f = F.fn(vt)
+        if not R.ob("S-ARITY", "anchor:variable_types", f is not None, "packages/rooc/src/parser/il/iterable_set.rs", "variable_types found"):
+            return
+        R.fn(vt)
+        PKI = PK + "::"
+        kinds = {"GraphEdge": V(PKI + "GraphEdge"), "Tuple2": V(PKI + "Tuple", [LV([V(PKI + "Number"), V(PKI + "String")])]), "Tuple3": V(PKI + "Tuple", [LV([V(PKI + "Number"), V(PKI + "Number"), V(PKI + "Boolean")])])}
+        bad = None
+        cur = {}
+        I.models["<parser::il::il_exp::PreExp as type_checker::type_checker_context::WithType>::get_type"] = lambda I_, a: V(PKI + "Iterable", [cur["kind"]])
+        for kl, kind in kinds.items():
+            cur["kind"] = kind
+            arity = I.call_fn(PK + "::can_spread_into", [kind])
+            if not (isinstance(arity, V) and arity.path.endswith("Result::Ok") and isinstance(arity.args[0], LV)):
+                bad = "can_spread_into(%s) not evaluable: %r" % (kl, arity)
+                break
+            m = len(arity.args[0].items)
+            for n in range(1, 6):
+                for names in (["v%d" % i for i in range(n)], ["v0"] + ["_"] * (n - 1), ["_"] * n):
+                    iset = V("parser::il::iterable_set::IterableSet", fields={"var": V("parser::model_transformer::model::VariableKind::Tuple", [LV([SP(x) for x in names])]), "iterator": V("utils::Spanned", fields={"value": V("ITER"), "span": Lf("span")}), "span": Lf("span")})
+                    r = I.call_fn(vt, [iset, V("TCTX"), V("FCTX")])
+                    if is_unknown(r):
+                        bad = "not evaluable for %s with %d names: %r" % (kl, n, r)
+                        break
+                    ok_ = isinstance(r, V) and r.path.endswith("Result::Ok")
+                    if (n > m) == ok_:
+                        bad = "%d names %s over a %s (%d components) are %s by the checker, but the binder %s" % (n, names, kl, m, "accepted" if ok_ else "rejected", "fails on them" if n > m else "binds them")
+                        break
+                if bad:
+                    break
+            if bad:
+                break
+        R.ob("S-ARITY", "variable_types", bad is None, F.loc(f), bad or "rejects exactly the patterns with more names than components, placeholders included (3 element kinds x 5 x 3 cases)")
